@@ -35,9 +35,9 @@ theorem split_ok (P alph : List Char) (l : Location) (h : WF l) (k : Int) :
         obtain ⟨kn, rfl⟩ := Int.eq_ofNat_of_zero_le hk0
         have hW := (within_of_Within P l loc hl).1 hw
         have hkn : kn ≤ loc.len := by omega
-        obtain ⟨m1, hm1, hwf1, hW1, hs1, _, he1⟩ :=
+        obtain ⟨m1, hm1, hwf1, hW1, hs1, _, _, _, _, he1⟩ :=
           sub_extract_read P alph hnt l h loc hl hW hd hno hlen 0 kn (by omega) hkn
-        obtain ⟨m2, hm2, hwf2, hW2, hs2, _, he2⟩ :=
+        obtain ⟨m2, hm2, hwf2, hW2, hs2, _, _, _, _, he2⟩ :=
           sub_extract_read P alph hnt l h loc hl hW hd hno hlen kn loc.len hkn (by omega)
         have hB : (bases loc).length = loc.len := bases_length loc
         simp only [List.drop_zero, Nat.sub_zero] at he1
@@ -162,7 +162,11 @@ theorem slice_consistent (P alph : List Char) (hnt : isNt alph = true) (x : SeqO
       y.data = (x.data.drop (normStart x.data.length a)).take
         (normEnd x.data.length a b - normStart x.data.length a) ∧
       y.par = some ⟨pst, some m⟩ ∧ WF m ∧ Within P m ∧
-      locationStrand? m = some loc.strand ∧ ans (extract P alph m) = some y.data := by
+      locationStrand? m = some loc.strand ∧ ans (extract P alph m) = some y.data ∧
+      nonOverlap (locationBlocks m) = true ∧
+      ((∀ b ∈ locationBlocks m, b.1 < b.2) ∨ ∃ b t, m = .single b t) ∧
+      locationBases m = ((bases loc).drop (normStart x.data.length a)).take
+        (normEnd x.data.length a b - normStart x.data.length a) := by
   obtain ⟨pst, hp⟩ := hc.par
   have hdl := expect_length P alph l loc hc.toLoc hc.dir x.data hc.data
   have hb := norm_bounds x.data.length a b
@@ -170,7 +174,7 @@ theorem slice_consistent (P alph : List Char) (hnt : isNt alph = true) (x : SeqO
   have h2 := stopOf_bounds x.data.length b
   generalize hrs : normStart x.data.length a = rs at hb
   generalize hre : normEnd x.data.length a b = re at hb
-  obtain ⟨m, hm, hwf, hW, hs, hne, hex⟩ :=
+  obtain ⟨m, hm, hwf, hW, hs, hne, hnoM, hshape, hbm, hex⟩ :=
     sub_extract P alph hnt l hc.wf loc hc.toLoc hc.within hc.dir hc.nonOverlap hlen rs re hb.1 (by omega)
       x.data hc.data
   obtain ⟨pst', hr⟩ := resetLocation_ok m loc.strand hs
@@ -183,7 +187,7 @@ theorem slice_consistent (P alph : List Char) (hnt : isNt alph = true) (x : SeqO
     rcases hstep with rfl | rfl <;>
     · unfold getSlice childPar
       simp only [hsi, hp, ne_eq, not_true_eq_false, if_false, e1, e2, hm, hr, bind, Except.bind, pure, Except.pure]
-  refine ⟨_, m, pst', hget, ?_, rfl, hwf, hW, hs, ?_⟩
+  refine ⟨_, m, pst', hget, ?_, rfl, hwf, hW, hs, ?_, hnoM, hshape, hbm⟩
   · exact pick_range' _ _ _ (by omega)
   · simp only [pick_range' x.data rs (re - rs) (by omega)]; exact hex
 
